@@ -252,7 +252,11 @@ impl Buffer {
                     size.width = 80;
                 }
                 self.set_size(size);
-                self.terminal_state.set_size(size);
+                // the declared height is the length of the picture, not the height of a screen: commands that work on "one screen"
+                // (insert / delete lines, scrolling, cursor jumps) must not be scaled by a number in the file
+                let mut screen = size;
+                screen.height = if size.height <= 0 { self.terminal_state.get_height() } else { size.height.min(1000) };
+                self.terminal_state.set_size(screen);
 
                 if !self.layers.is_empty() {
                     self.layers[0].set_size(size);
@@ -605,7 +609,9 @@ impl Buffer {
                 (self.get_first_visible_line() + self.get_height()).saturating_sub(1)
             }
         } else {
-            max(self.layers[0].lines.len() as i32, self.get_height().saturating_sub(1))
+            // at most one screen below the lines that exist: a height that a file merely declares is no work to be done
+            let stored = self.layers[0].lines.len() as i32;
+            max(stored, self.get_height().saturating_sub(1)).min(stored.saturating_add(self.terminal_state.get_height()))
         }
     }
 
